@@ -9,6 +9,7 @@
 
 WORLDS = {
     "exec": {},
+    "svc": {"l2": ["services/basic_service.go", "services/manager.go", "services/failure_watcher.go"]},
 }
 
 _ASSUME_COMMON = [
@@ -39,6 +40,17 @@ PROPS["C11"] = {
     "level_text": "seeded exploration of outcomes, completion orders, hedging-clock positions and cancellation points of the real quorum-read executors against a criterion/cleanup/context model evaluated at every quiescent point; sampling, not proof",
     "level_note": "trusted: simulator engine and the quorum model written from the statement; select among simultaneously ready channels inside dskit is decided by the Go runtime (oracles accept either branch)",
     "design_ref": "DESIGN.md section 5 C11",
+}
+
+PROPS["C17"] = {
+    "world": "svc", "level": "exploration", "quick_s": 20, "thorough_s": 480,
+    "rule": "one evaluation = one simulated history of a BasicService / idle / timer service (scenario 'service') or of a Manager over 1..3 services with listener, waiters and FailureWatcher (scenario 'manager'): client operations, function outcomes, cancellations and the interleaving at every client call, callback and state-mutex acquisition are drawn from the choice vector; non-trivial = lock-point yields were exercised and a stop/cancel/failure interleaved with the life cycle; distinct = distinct released-task/action sequence hash among non-trivial runs",
+    "real": ["services.BasicService", "services.NewIdleService/NewTimerService", "services.Manager", "services.FailureWatcher", "services.NewListener/NewManagerListener"],
+    "stub": ["starting/running/stopping functions (parked tasks, outcome chosen by the scheduler)", "listener callbacks (tasks)", "client goroutines"],
+    "assumptions": _ASSUME_COMMON + ["L2: services/basic_service.go, manager.go, failure_watcher.go are compiled from generated copies in which every Lock/RLock statement is preceded by a scheduler yield (TryLock spin); interleavings between two plain statements are not split", "listener callbacks never block forever (they are released by the scheduler)"],
+    "level_text": "seeded exploration of client/callback/lock-acquisition interleavings of the real service and manager code against a reference state machine (edges, function order, waiters, listener sequences, manager health) checked at every quiescent point; sampling, not proof",
+    "level_note": "trusted: simulator engine, reference state machine written from the statement, the syntactic lock-point rewriter (tools/vtool)",
+    "design_ref": "DESIGN.md section 5 C17",
 }
 
 HOOK_COMMITS = []
